@@ -405,6 +405,8 @@ class ValidExtsOracles(ActiveItemOracles):
                 return Opaque(EXTS, {"node-exts"})
             if name == "sequence":
                 return Opaque("DnaStringSlice", {"node-seq"})
+        if "PackedDnaStringSet" in path and name == "get" and len(args) == 2 and "node" in tags_of(args[1]):
+            return Opaque("DnaStringSlice", {"node-seq"})
         if fn.get("trait") == "Vmer" and name in ("first_kmer", "last_kmer", "term_kmer"):
             sd = LEFT if name == "first_kmer" else (RIGHT if name == "last_kmer" else dir_of(args[1]))
             return Opaque("K", {"term", "end-%s" % sd})
@@ -412,6 +414,9 @@ class ValidExtsOracles(ActiveItemOracles):
             sd = dir_of(args[1])
             b = args[2].val if isinstance(args[2], Int) and args[2].is_conc() else None
             return mkbool(self.state(sd, b) != "none")
+        if path.startswith("Exts::") and name == "get" and len(args) == 2 and "node-exts" in tags_of(recv(it, args[0])):
+            sd = dir_of(args[1])
+            return VecV([Int(8, False, val=b) for b in range(4) if self.state(sd, b) != "none"])
         if fn.get("trait") == "Kmer" and name in ("extend", "extend_left", "extend_right"):
             k = recv(it, args[0])
             sd = dir_of(args[2]) if name == "extend" else (LEFT if name == "extend_left" else RIGHT)
@@ -449,6 +454,12 @@ class ValidExtsOracles(ActiveItemOracles):
             self.observe("valid-asked", item)
             return mkbool(self.state(*item) in ("ext-link-valid", "ext-link-self"))
         return NotImplemented
+
+    def opaque_index(self, it, v, idx, base):
+        # the node's own entry of the extensions table (read directly instead of through the Node wrapper)
+        if "exts-vec" in tags_of(v) and "node" in tags_of(idx):
+            return Ref(Cell(Opaque(EXTS, {"node-exts"}), "exts[node]"))
+        return None
 
     def unknown_compare(self, it, op, a, b):
         # comparisons between node ids: the node being pruned vs. the node a probe resolved to
